@@ -333,7 +333,7 @@ func TestC19Omitted(t *testing.T) {
 // visit each of the ~1500 pairs.
 
 func TestC19OmittedAll(t *testing.T) {
-	r := h.NewRecorder(t, "C19", "omitted-all", "every (command template, omitted scalar option) pair of the template table, once per run, on a data set generated from VERIF_SEED: the command without the option and with --option=<documented default> must give identical exit status, stdout and files; non-trivial = the baseline run exits with status 0 and produces output")
+	r := h.NewRecorder(t, "C19", "omitted-all", "every (command template, omitted scalar option) pair of the template table, twice per run, on a data set with 12-16 tips and on one with 67-130 tips, both generated from VERIF_SEED: the command without the option and with --option=<documented default> must give identical exit status, stdout and files; non-trivial = the baseline run exits with status 0 and produces output")
 	var rc OmitCase
 	if replaying, mine := r.ReplayCase(&rc); replaying {
 		if mine {
@@ -344,35 +344,42 @@ func TestC19OmittedAll(t *testing.T) {
 	if !cli.Available() {
 		t.Fatalf("gotree binary not built")
 	}
-	dsgen := rapid.Custom(func(t *rapid.T) clit.Dataset { return clit.GenDataset(t) })
+	dsgen := rapid.Custom(func(t *rapid.T) clit.Dataset { return clit.GenDatasetSized(t, false) })
+	lggen := rapid.Custom(func(t *rapid.T) clit.Dataset { return clit.GenDatasetSized(t, true) })
 	var sets []clit.Dataset
 	for i := 0; i < 3; i++ {
 		sets = append(sets, dsgen.Example(int(h.Seed())*100+i))
 	}
+	large := lggen.Example(int(h.Seed())*100 + 7)
 	k := 0
 	for _, tp := range clit.Templates() {
 		for _, f := range omittable(tp) {
-			k++
-			if k%h.NShards() != h.Shard() {
-				continue
-			}
-			c := OmitCase{Template: tp.Name, Flag: f.Name, Data: sets[k%len(sets)], Seed: h.Seed() + int64(k)}
-			var err error
-			gerr := r.Guard(map[string]any{"template": c.Template, "flag": c.Flag}, 300e9, func() error {
-				err = checkOmit(c)
-				return nil
-			})
-			if gerr != nil {
-				err = gerr
-			}
-			o := clit.Run(tp, c.Data, c.Seed, 0)
-			size := len(o.Stdout)
-			for _, v := range o.Files {
-				size += len(v)
-			}
-			r.Eval(map[string]any{"template": c.Template, "flag": c.Flag}, o.Code == 0 && size > 0, "flag:"+c.Flag)
-			if err != nil {
-				r.Fail(c, "%v", err)
+			for _, big := range []bool{false, true} {
+				k++
+				if k%h.NShards() != h.Shard() {
+					continue
+				}
+				c := OmitCase{Template: tp.Name, Flag: f.Name, Data: sets[k%len(sets)], Seed: h.Seed() + int64(k)}
+				if big {
+					c.Data = large
+				}
+				var err error
+				gerr := r.Guard(map[string]any{"template": c.Template, "flag": c.Flag}, 300e9, func() error {
+					err = checkOmit(c)
+					return nil
+				})
+				if gerr != nil {
+					err = gerr
+				}
+				o := clit.Run(tp, c.Data, c.Seed, 0)
+				size := len(o.Stdout)
+				for _, v := range o.Files {
+					size += len(v)
+				}
+				r.Eval(map[string]any{"template": c.Template, "flag": c.Flag}, o.Code == 0 && size > 0, "flag:"+c.Flag)
+				if err != nil {
+					r.Fail(c, "%v", err)
+				}
 			}
 		}
 	}
